@@ -92,3 +92,13 @@ Proof.
   symmetry. apply rep_eqb_true. reflexivity.
 Qed.
 End Conv.
+
+(* assembled statements for Properties/C10.v *)
+Theorem set_representation_meaning INF m1 fv r t :
+  t_rep (set_representation INF m1 fv r t) = r /\
+  t_a (set_representation INF m1 fv r t) = of_canonical INF m1 fv r (to_canonical INF m1 fv (t_rep t) (t_a t)).
+Proof. split; [apply set_representation_rep | apply set_representation_a]. Qed.
+Example conversions_example INF m1 :
+  t_a (set_representation INF m1 true CENTER (set_representation INF m1 true ONEONE (mkTriplet 5 ZERO)))
+  = 5 + m1 (-1) 1 + (m1 (- INF) (-1) + m1 1 INF).
+Proof. rewrite set_representation_a, set_representation_canonical. unfold canonical_of, to_canonical, of_canonical, I11, Tails. simpl. ring. Qed.
